@@ -516,13 +516,16 @@ func caseNesting(c *Case) (nested, typed bool) {
 		}
 	}
 	if c.Kind == "pack" {
-		return nested, typed || c.Spec.TIn || c.Spec.TOut
+		return nested || c.Spec.Kind == 4, typed || c.Spec.TIn || c.Spec.TOut
 	}
 	c.Prog.walk(func(q *Prog) {
 		if q.W != nil && q.W.Out != nil {
 			if q.Op == "node" && q.N.outMap() || q.Op == "sub" && q.Kids[0].outMap() {
 				nested = true
 			}
+		}
+		if q.N != nil && q.N.Kind == 4 {
+			nested = true
 		}
 		if q.N != nil && (q.N.TIn || q.N.TOut) {
 			typed = true
@@ -570,6 +573,9 @@ func stats(p *Prog) pstats {
 			}
 			if q.N.isLive() && q.N.Nat[3] {
 				feat["liveT"] = true
+			}
+			if q.N.Kind == 4 {
+				feat["wrapnode"] = true
 			}
 			if q.N.AnyOut {
 				feat["anyedge"] = true
@@ -619,6 +625,9 @@ func stats(p *Prog) pstats {
 				}
 			} else {
 				feat["mapfields"] = true
+			}
+			if q.OutMap.mapValued {
+				feat["mapfields-map"] = true
 			}
 		}
 		if q.W != nil {
@@ -684,7 +693,7 @@ func outKeys(p *Prog) map[int]bool {
 			switch p.N.Kind {
 			case 2:
 				return map[int]bool{p.N.K1: true, p.N.K2: true}
-			case 3:
+			case 3, 4:
 				return map[int]bool{p.N.K1: true}
 			}
 			return nil
